@@ -9,12 +9,14 @@ Open Scope bool_scope.
 
 (* ---------- ties to the source text (break when the source changes shape) ---------- *)
 
-(* what the proofs below need from the code: bound 3, every device request method retried,
-   a usable fail value for get_color, the capability check in _color_matrix_light (D23),
-   the guarded zone count in MultizoneLight.__init__ (D24) *)
+(* what the proofs below need from the code: bound 3, every device request method and both
+   broadcasts retried (D47), a usable fail value for get_color, the capability check in
+   _color_matrix_light (D23), the guarded zone count in MultizoneLight.__init__ (D24), the
+   size guard in _matrix / _color_matrix_light (D48) *)
 Definition good (sh : shapes) : Prop :=
   sh_max_tries sh = 3%nat /\ (forall k, sh_wrapped sh k = wrapped_all k) /\
-  sh_get_fail_ok sh = true /\ sh_matrix_checked sh = true /\ sh_mz_guarded sh = true.
+  sh_get_fail_ok sh = true /\ sh_matrix_checked sh = true /\ sh_mz_guarded sh = true /\
+  sh_size_guarded sh = true.
 
 Lemma current_good : good current.
 Proof. unfold good. split; [reflexivity|]. split; [intros []; reflexivity|]. repeat split; reflexivity. Qed.
@@ -264,31 +266,31 @@ Definition survives (r : result) : Prop := ~ device_abort r.
 Lemma stepped_healthy st st' d k h : plan_stepped st st' d k -> healthy (s_plan st) h -> healthy (s_plan st') h.
 Proof. intros [n ->] H. apply healthy_plan_set_skipn. exact H. Qed.
 
-(* a request through a retried method, or a broadcast on a LAN that works *)
+(* a request through a retried method never ends the script *)
+Definition anyst (st : state) : Prop := True.
+
 Lemma request_then_ok st d k pl :
-  lan_ok st -> (wrapped_all k = true \/ d = lan) ->
+  wrapped_all k = true ->
   let '(st', res, t) := request_then sh st d k pl in
-  lan_ok st' /\ Forall req_ok t /\ res = Continue.
+  anyst st' /\ Forall req_ok t /\ res = Continue.
 Proof.
-  intros Hlan Hk. unfold request_then. pose proof (send_spec st d k pl) as H.
+  intros Hk. unfold request_then. pose proof (send_spec st d k pl) as H.
   destruct (send sh st d k pl) as [[st' sn] rq].
   destruct H as (_ & _ & _ & Hp & _ & _ & Hlen & Hstop & Hsn & Hall).
   splits.
-  - eapply stepped_healthy; eassumption.
+  - exact I.
   - constructor; [|constructor]. split; assumption.
-  - destruct sn; try reflexivity. destruct Hsn as (Hw & _). rewrite wrapped_eq in Hw.
-    destruct Hk as [Hk | ->]; [congruence|].
-    destruct (Hall (Hlan k)) as [E _]. discriminate.
+  - destruct sn; try reflexivity. destruct Hsn as (Hw & _). rewrite wrapped_eq in Hw. congruence.
 Qed.
 
-(* the matrix commands address cells inside a matrix whose size is known *)
+(* the matrix commands address cells inside the matrix they are staged on (the light's own,
+   or the 255 x 255 scratch matrix of a target that is not a matrix light of known size) *)
 Definition matrix_ready (dir : directory) (c : cmd) : bool :=
   match c with
   | CMatrix n rows cols _ =>
       match find_light dir n with
       | Some w =>
           match w_kind w with
-          | WMatrix None => false
           | WMatrix (Some (h, wd)) => rect_ok (span rows h) (span cols wd) h wd
           | _ => rect_ok (span rows 255) (span cols 255) 255 255
           end
@@ -298,61 +300,61 @@ Definition matrix_ready (dir : directory) (c : cmd) : bool :=
   end.
 
 Definition script_abort (dir : directory) (c : cmd) (res : result) : Prop :=
-  res = Continue \/ (matrix_ready dir c = false /\ (res = Abort AbSize \/ res = Abort AbIndex)).
+  (matrix_ready dir c = true /\ res = Continue) \/ (matrix_ready dir c = false /\ res = Abort AbIndex).
 
 Lemma step_ok dir st c :
-  lan_ok st ->
   let '(st', res, t) := step sh dir st c in
-  lan_ok st' /\ Forall req_ok t /\ script_abort dir c res.
+  anyst st' /\ Forall req_ok t /\ script_abort dir c res.
 Proof.
-  intros Hlan. unfold script_abort.
-  assert (Hone : forall dur st w, lan_ok st ->
-            let '(st', res, t) := color_one sh dur st w in lan_ok st' /\ Forall req_ok t /\ res = Continue).
-  { intros dur st0 w H0. unfold color_one. apply request_then_ok; [exact H0|left; reflexivity]. }
-  assert (Hpow : forall on dur st w, lan_ok st ->
-            let '(st', res, t) := power_one sh on dur st w in lan_ok st' /\ Forall req_ok t /\ res = Continue).
-  { intros on dur st0 w H0. unfold power_one. apply request_then_ok; [exact H0|left; reflexivity]. }
-  assert (Hrt : forall d k pl, (wrapped_all k = true \/ d = lan) ->
+  assert (Hlan : anyst st) by exact I. unfold script_abort.
+  assert (Hone : forall dur st w, anyst st ->
+            let '(st', res, t) := color_one sh dur st w in anyst st' /\ Forall req_ok t /\ res = Continue).
+  { intros dur st0 w H0. unfold color_one. apply request_then_ok; reflexivity. }
+  assert (Hpow : forall on dur st w, anyst st ->
+            let '(st', res, t) := power_one sh on dur st w in anyst st' /\ Forall req_ok t /\ res = Continue).
+  { intros on dur st0 w H0. unfold power_one. apply request_then_ok; reflexivity. }
+  assert (Hrt : forall d k pl, wrapped_all k = true ->
             let '(st', res, t) := request_then sh st d k pl in
-            lan_ok st' /\ Forall req_ok t /\ (res = Continue \/ (true = false /\ (res = Abort AbSize \/ res = Abort AbIndex)))).
-  { intros d k pl Hk. pose proof (request_then_ok st d k pl Hlan Hk) as H.
+            anyst st' /\ Forall req_ok t /\ ((true = true /\ res = Continue) \/ (true = false /\ res = Abort AbIndex))).
+  { intros d k pl Hk. pose proof (request_then_ok st d k pl Hk) as H.
     destruct (request_then sh st d k pl) as [[st' res] t]. destruct H as (? & ? & ?). auto. }
-  assert (Hskip : lan_ok st /\ Forall req_ok (@nil request) /\
-                  (Continue = Continue \/ (true = false /\ (Continue = Abort AbSize \/ Continue = Abort AbIndex)))) by auto.
-  assert (Heach : forall f ws, (forall st w, lan_ok st -> let '(st', res, t) := f st w in lan_ok st' /\ Forall req_ok t /\ res = Continue) ->
+  assert (Hskip : anyst st /\ Forall req_ok (@nil request) /\
+                  ((true = true /\ Continue = Continue) \/ (true = false /\ Continue = Abort AbIndex))) by auto.
+  assert (Heach : forall f ws, (forall st w, anyst st -> let '(st', res, t) := f st w in anyst st' /\ Forall req_ok t /\ res = Continue) ->
             let '(st', res, t) := each f st ws in
-            lan_ok st' /\ Forall req_ok t /\ (res = Continue \/ (true = false /\ (res = Abort AbSize \/ res = Abort AbIndex)))).
-  { intros f ws Hf. pose proof (each_inv lan_ok req_ok (fun r => r = Continue) f eq_refl Hf ws st Hlan) as H.
+            anyst st' /\ Forall req_ok t /\ ((true = true /\ res = Continue) \/ (true = false /\ res = Abort AbIndex))).
+  { intros f ws Hf. pose proof (each_inv anyst req_ok (fun r => r = Continue) f eq_refl Hf ws st Hlan) as H.
     destruct (each f st ws) as [[st' res] t]. destruct H as (? & ? & ?). auto. }
   destruct c as [v | t dur | t on dur | n first last dur | n rows cols dur | n]; cbn [step].
   - auto.
   - destruct t; cbn [resolve].
-    + apply Hrt. right; reflexivity.
+    + apply Hrt. reflexivity.
     + destruct (find_light dir n); [|exact Hskip]. apply Heach. intros; apply Hone; assumption.
     + destruct (members w_group dir n); [|exact Hskip]. apply Heach. intros; apply Hone; assumption.
     + destruct (members w_loc dir n); [|exact Hskip]. apply Heach. intros; apply Hone; assumption.
   - destruct t; cbn [resolve].
-    + apply Hrt. right; reflexivity.
+    + apply Hrt. reflexivity.
     + destruct (find_light dir n); [|exact Hskip]. apply Heach. intros; apply Hpow; assumption.
     + destruct (members w_group dir n); [|exact Hskip]. apply Heach. intros; apply Hpow; assumption.
     + destruct (members w_loc dir n); [|exact Hskip]. apply Heach. intros; apply Hpow; assumption.
   - destruct (find_light dir n) as [w|]; [|exact Hskip].
-    destruct (w_kind w); try exact Hskip. apply Hrt. left; reflexivity.
+    destruct (w_kind w); try exact Hskip. apply Hrt. reflexivity.
   - cbn [matrix_ready]. destruct (find_light dir n) as [w|].
     + destruct (w_kind w) as [|z|[[h wd]|]].
       * destruct (rect_ok _ _ _ _); cbn [negb]; [|auto 6]. destruct Hgood as (_ & _ & _ & -> & _). splits; auto.
       * destruct (rect_ok _ _ _ _); cbn [negb]; [|auto 6]. destruct Hgood as (_ & _ & _ & -> & _). splits; auto.
       * destruct (rect_ok _ _ _ _); cbn [negb]; [|auto 6].
-        pose proof (Hrt (w_dev w) KSetTile (cells h wd (span rows h) (span cols wd) (raw_color (s_regs st)) ++ [clamp32 dur; wd; h]) (or_introl eq_refl)) as H.
-        destruct (request_then sh st (w_dev w) KSetTile _) as [[st' res] t]. destruct H as (? & ? & [?|[? _]]); [auto|discriminate].
-      * auto 6.
+        pose proof (Hrt (w_dev w) KSetTile (cells h wd (span rows h) (span cols wd) (raw_color (s_regs st)) ++ [clamp32 dur; wd; h]) eq_refl) as H.
+        destruct (request_then sh st (w_dev w) KSetTile _) as [[st' res] t]. destruct H as (? & ? & [[_ ?]|[? _]]); [auto 6|discriminate].
+      * destruct Hgood as (_ & _ & _ & _ & _ & ->).
+        destruct (rect_ok _ _ _ _); cbn [negb]; [|auto 6]. splits; auto.
     + destruct (rect_ok _ _ _ _); cbn [negb]; [|auto 6]. splits; auto.
   - destruct (find_light dir n) as [w|]; [|exact Hskip].
     destruct (w_kind w); try exact Hskip.
     pose proof (send_spec st (w_dev w) KGetColor []) as H.
     destruct (send sh st (w_dev w) KGetColor []) as [[st' sn] rq].
     destruct H as (_ & _ & _ & Hp & _ & _ & Hlen & Hstop & Hsn & Hall).
-    assert (Hl' : lan_ok st') by (eapply stepped_healthy; eassumption).
+    assert (Hl' : anyst st') by exact I.
     assert (Hrq : Forall req_ok [rq]) by (constructor; [split; assumption|constructor]).
     destruct sn.
     + destruct (tainted st (w_dev w)); splits; auto.
@@ -398,6 +400,7 @@ Proof.
     destruct (w_kind w); try exact Hskip. apply request_then_trace.
   - destruct (find_light dir n) as [w|].
     + destruct (w_kind w) as [|z|[[h wd]|]]; try exact Hskip;
+        try (destruct (sh_size_guarded sh); [|exact Hskip]);
         destruct (negb (rect_ok _ _ _ _)); try exact Hskip; try apply request_then_trace;
         destruct (sh_matrix_checked sh); exact Hskip.
     + destruct (negb (rect_ok _ _ _ _)); exact Hskip.
@@ -418,40 +421,52 @@ Proof.
   unfold attempts_bounded, well_retried. split; eapply Forall_impl; try exact H; intros r [H1 H2]; assumption.
 Qed.
 
-(* THEOREM: no device outcome, unknown name or capability mismatch ends the script.  The
-   only aborts left are caused by the script's own row/column numbers (AbIndex) and by a
-   matrix light whose size discovery could not learn (AbSize); broadcasts are assumed to
-   leave the host (lan_ok), see broadcast_failure_aborts below. *)
+(* THEOREM: no device outcome, unknown name or capability mismatch ends the script, for
+   every plan (broadcasts included) and every directory (matrix lights of unknown size
+   included).  The only abort left is caused by the script's own row/column numbers
+   (AbIndex: they lie outside the matrix the command is staged on). *)
 Theorem run_survives dir st cs :
-  lan_ok st ->
   let '(st', res, t) := run sh dir st cs in
-  res = Continue \/ ((res = Abort AbSize \/ res = Abort AbIndex) /\ exists c, In c cs /\ matrix_ready dir c = false).
+  res = Continue \/ (res = Abort AbIndex /\ exists c, In c cs /\ matrix_ready dir c = false).
 Proof.
-  intros Hlan. revert st Hlan. induction cs as [|c cs IH]; intros st Hlan; cbn [run]; [auto|].
-  pose proof (step_ok dir st c Hlan) as H. destruct (step sh dir st c) as [[st1 res1] t1].
-  destruct H as (Hl1 & _ & [-> | [Hr Hab]]).
-  - specialize (IH st1 Hl1). destruct (run sh dir st1 cs) as [[st2 res2] t2].
+  revert st. induction cs as [|c cs IH]; intros st; cbn [run]; [auto|].
+  pose proof (step_ok dir st c) as H. destruct (step sh dir st c) as [[st1 res1] t1].
+  destruct H as (_ & _ & [[_ ->] | [Hr ->]]).
+  - specialize (IH st1). destruct (run sh dir st1 cs) as [[st2 res2] t2].
     destruct IH as [-> | [Hab (c' & Hin & Hc')]]; [auto|]. right. split; [exact Hab|]. exists c'. split; [right; exact Hin|exact Hc'].
-  - destruct res1 as [|r]; [destruct Hab; discriminate|]. right. split; [exact Hab|]. exists c. split; [left; reflexivity|exact Hr].
+  - right. split; [reflexivity|]. exists c. split; [left; reflexivity|exact Hr].
 Qed.
 
 (* in particular: when the matrix commands are addressable the script runs to its end *)
 Corollary run_continues dir st cs :
-  lan_ok st -> Forall (fun c => matrix_ready dir c = true) cs ->
+  Forall (fun c => matrix_ready dir c = true) cs ->
   let '(st', res, t) := run sh dir st cs in res = Continue.
 Proof.
-  intros Hlan Hall. pose proof (run_survives dir st cs Hlan) as H.
+  intros Hall. pose proof (run_survives dir st cs) as H.
   destruct (run sh dir st cs) as [[st' res] t]. destruct H as [H | [_ (c & Hin & Hc)]]; [exact H|].
   rewrite Forall_forall in Hall. rewrite (Hall c Hin) in Hc. discriminate.
 Qed.
 
+(* how a run ends is decided by the directory and the commands alone *)
+Lemma run_result_independent dir cs : forall st1 st2,
+  snd (fst (run sh dir st1 cs)) = snd (fst (run sh dir st2 cs)).
+Proof.
+  induction cs as [|c cs IH]; intros st1 st2; cbn [run]; [reflexivity|].
+  pose proof (step_ok dir st1 c) as S1. pose proof (step_ok dir st2 c) as S2.
+  destruct (step sh dir st1 c) as [[st1' r1] t1]. destruct (step sh dir st2 c) as [[st2' r2] t2].
+  destruct S1 as (_ & _ & [[M1 ->] | [M1 ->]]); destruct S2 as (_ & _ & [[M2 ->] | [M2 ->]]); try congruence.
+  - specialize (IH st1' st2').
+    destruct (run sh dir st1' cs) as [[? ?] ?]. destruct (run sh dir st2' cs) as [[? ?] ?]. exact IH.
+  - reflexivity.
+Qed.
+
 (* ---------- non-interference ---------- *)
 
-(* run 1 under any plan whose LAN works, run 2 under a plan where every device is healthy *)
+(* run 1 under any plan, run 2 under a plan where every device (and the LAN) is healthy *)
 Definition rel (st1 st2 : state) : Prop :=
   s_regs st1 = s_regs st2 /\
   (forall d, tainted st1 d = false -> s_colors st1 d = s_colors st2 d) /\
-  lan_ok st1 /\ (forall d, healthy (s_plan st2) d) /\ s_dirty st1 = false.
+  (forall d, healthy (s_plan st2) d) /\ s_dirty st1 = false.
 
 Lemma received_one h r : received h [r] = if r_dev r =? h then received_of r else [].
 Proof. unfold received. cbn. rewrite app_nil_r. reflexivity. Qed.
@@ -471,26 +486,36 @@ Proof. destruct k; reflexivity. Qed.
 Lemma tainted_deliver st p d k pl d' : tainted (deliver (with_plan st p) d k pl) d' = tainted st d'.
 Proof. destruct k; reflexivity. Qed.
 
-Lemma tainted_taint st p d d' : tainted (taint (with_plan st p) d) d' = (d' =? d) || tainted st d'.
-Proof. reflexivity. Qed.
+Lemma tainted_taint st p d d' :
+  tainted (taint (with_plan st p) d) d' = false ->
+  (d' =? d) = false /\ (lan =? d) = false /\ tainted st d' = false.
+Proof.
+  unfold tainted. cbn [s_tainted taint with_plan existsb]. intros H.
+  apply orb_false_elim in H. destruct H as [H1 H2].
+  apply orb_false_elim in H1. apply orb_false_elim in H2. destruct H1, H2.
+  splits; try assumption. apply orb_false_intro; assumption.
+Qed.
+
+(* the broadcasts are addressed to the LAN *)
+Definition lan_kind (k : rkind) : bool :=
+  match k with KLanGetLights | KLanSetColorAll | KLanSetPowerAll => true | _ => false end.
 
 Lemma send_rel st1 st2 d k pl :
-  rel st1 st2 -> (wrapped_all k = true \/ d = lan) ->
+  rel st1 st2 -> wrapped_all k = true -> (lan_kind k = true -> d = lan) ->
   let '(st1', s1, r1) := send sh st1 d k pl in
   let '(st2', s2, r2) := send sh st2 d k pl in
   rel st1' st2' /\ s1 <> SRaised /\
   (s1 = SAnswered -> (forall d', tainted st1' d' = tainted st1 d') /\ s_colors st1' = s_colors (deliver st1 d k pl)) /\
   (forall h, healthy (s_plan st1) h -> received h [r1] = received h [r2] /\ healthy (s_plan st1') h).
 Proof.
-  intros (Hregs & Hcol & Hlan & Hh2 & Hdirty) Hk.
+  intros (Hregs & Hcol & Hh2 & Hdirty) Hk Hlk.
   pose proof (send_spec st1 d k pl) as H1. pose proof (send_spec st2 d k pl) as H2.
   destruct (send sh st1 d k pl) as [[st1' s1] r1]. destruct (send sh st2 d k pl) as [[st2' s2] r2].
   destruct H1 as (Hd1 & Hk1 & Hp1 & Hst1 & Hr1 & Hdi1 & _ & _ & Hs1 & Hall1).
   destruct H2 as (Hd2 & Hk2 & Hp2 & Hst2 & Hr2 & _ & _ & _ & Hs2 & Hall2).
   destruct (Hall2 (Hh2 d k)) as [-> Ho2]. destruct Hs2 as [Hs2 _].
   assert (Hnr : s1 <> SRaised).
-  { intros ->. destruct Hs1 as (Hw & _). rewrite wrapped_eq in Hw.
-    destruct Hk as [Hk | ->]; [congruence|]. destruct (Hall1 (Hlan k)) as [E _]. discriminate. }
+  { intros ->. destruct Hs1 as (Hw & _). rewrite wrapped_eq in Hw. congruence. }
   assert (Hrec : forall h, healthy (s_plan st1) h -> received h [r1] = received h [r2] /\ healthy (s_plan st1') h).
   { intros h Hh. split; [|eapply stepped_healthy; eassumption].
     rewrite !received_one, Hd1, Hd2. destruct (Z.eqb_spec d h) as [->|]; [|reflexivity].
@@ -503,14 +528,14 @@ Proof.
       * destruct Hs1 as [E1 _]. rewrite E1, Hs2, !colors_deliver. rewrite E1, tainted_deliver in Ht.
         destruct k; try (apply Hcol; exact Ht); try reflexivity.
         destruct (d' =? d); [reflexivity|apply Hcol; exact Ht].
-      * destruct Hs1 as (Hw & E1 & _). rewrite E1 in Ht. rewrite tainted_taint in Ht.
-        apply orb_false_elim in Ht. destruct Ht as [Hne Ht].
+      * destruct Hs1 as (Hw & E1 & _). rewrite E1 in Ht. apply tainted_taint in Ht.
+        destruct Ht as (Hne & Hnl & Ht).
         rewrite E1, Hs2, colors_deliver. cbn [s_colors taint with_plan].
-        rewrite wrapped_eq in Hw.
-        destruct k; try discriminate Hw; try (apply Hcol; exact Ht).
-        rewrite Hne. apply Hcol. exact Ht.
+        destruct k; try (apply Hcol; exact Ht).
+        -- (* an abandoned broadcast: it was addressed to the LAN, which is now tainted *)
+           rewrite (Hlk eq_refl) in Hnl. cbn in Hnl. discriminate.
+        -- rewrite Hne. apply Hcol. exact Ht.
       * contradiction.
-    + eapply stepped_healthy; eassumption.
     + intros d'. eapply stepped_healthy; [eassumption|apply Hh2].
     + congruence.
   - intros ->. destruct Hs1 as [E1 _]. split.
@@ -526,16 +551,16 @@ Definition both3 (h : dev) (o1 o2 : outcome3) : Prop :=
   rel_h h st1' st2' /\ res1 = Continue /\ res2 = Continue /\ received h t1 = received h t2.
 
 Lemma request_then_rel h st1 st2 d k pl :
-  rel_h h st1 st2 -> (wrapped_all k = true \/ d = lan) ->
+  rel_h h st1 st2 -> wrapped_all k = true -> (lan_kind k = true -> d = lan) ->
   both3 h (request_then sh st1 d k pl) (request_then sh st2 d k pl).
 Proof.
-  intros [Hrel Hh] Hk. unfold both3, request_then.
-  pose proof (send_rel st1 st2 d k pl Hrel Hk) as H. pose proof (send_spec st2 d k pl) as H2.
+  intros [Hrel Hh] Hk Hlk. unfold both3, request_then.
+  pose proof (send_rel st1 st2 d k pl Hrel Hk Hlk) as H. pose proof (send_spec st2 d k pl) as H2.
   destruct (send sh st1 d k pl) as [[st1' s1] r1]. destruct (send sh st2 d k pl) as [[st2' s2] r2].
   destruct H as (Hr & Hnr & _ & Hrec). destruct (Hrec h Hh) as [He Hh'].
   destruct H2 as (_ & _ & _ & _ & _ & _ & _ & _ & _ & Hall2).
   assert (s2 = SAnswered) as ->
-    by (destruct Hrel as (_ & _ & _ & Hh2' & _); exact (proj1 (Hall2 (Hh2' d k)))).
+    by (destruct Hrel as (_ & _ & Hh2' & _); exact (proj1 (Hall2 (Hh2' d k)))).
   unfold rel_h. splits; try assumption; try reflexivity.
   destruct s1; try reflexivity. contradiction.
 Qed.
@@ -559,12 +584,12 @@ Lemma color_one_rel h dur st1 st2 w :
   rel_h h st1 st2 -> both3 h (color_one sh dur st1 w) (color_one sh dur st2 w).
 Proof.
   intros Hrel. unfold color_one. destruct Hrel as [Hr Hh]. pose proof Hr as (Hregs & _). rewrite Hregs.
-  apply request_then_rel; [split; assumption|left; reflexivity].
+  apply request_then_rel; [split; assumption|reflexivity|discriminate].
 Qed.
 
 Lemma power_one_rel h on dur st1 st2 w :
   rel_h h st1 st2 -> both3 h (power_one sh on dur st1 w) (power_one sh on dur st2 w).
-Proof. intros Hrel. unfold power_one. apply request_then_rel; [assumption|left; reflexivity]. Qed.
+Proof. intros Hrel. unfold power_one. apply request_then_rel; [assumption|reflexivity|discriminate]. Qed.
 
 (* one command in both runs *)
 Definition step3 (h : dev) (o1 o2 : outcome3) : Prop :=
@@ -581,42 +606,42 @@ Qed.
 Lemma step_rel h dir st1 st2 c :
   rel_h h st1 st2 -> step3 h (step sh dir st1 c) (step sh dir st2 c).
 Proof.
-  intros Hrel. pose proof Hrel as [Hr Hh]. pose proof Hr as (Hregs & Hcol & Hlan & Hh2 & Hdirty).
+  intros Hrel. pose proof Hrel as [Hr Hh]. pose proof Hr as (Hregs & Hcol & Hh2 & Hdirty).
   assert (Hskip : step3 h (st1, Continue, []) (st2, Continue, [])) by (unfold step3; auto).
   destruct c as [v | t dur | t on dur | n first last dur | n rows cols dur | n]; cbn [step].
   - unfold step3. splits; auto. intros _. split; [|exact Hh]. unfold rel. splits; auto.
   - destruct t; cbn [resolve].
-    + rewrite Hregs. apply both3_step3, request_then_rel; [exact Hrel|right; reflexivity].
+    + rewrite Hregs. apply both3_step3, request_then_rel; [exact Hrel|reflexivity|reflexivity].
     + destruct (find_light dir n); [|exact Hskip]. apply both3_step3, each_rel; [|exact Hrel]. intros; apply color_one_rel; assumption.
     + destruct (members w_group dir n); [|exact Hskip]. apply both3_step3, each_rel; [|exact Hrel]. intros; apply color_one_rel; assumption.
     + destruct (members w_loc dir n); [|exact Hskip]. apply both3_step3, each_rel; [|exact Hrel]. intros; apply color_one_rel; assumption.
   - destruct t; cbn [resolve].
-    + apply both3_step3, request_then_rel; [exact Hrel|right; reflexivity].
+    + apply both3_step3, request_then_rel; [exact Hrel|reflexivity|reflexivity].
     + destruct (find_light dir n); [|exact Hskip]. apply both3_step3, each_rel; [|exact Hrel]. intros; apply power_one_rel; assumption.
     + destruct (members w_group dir n); [|exact Hskip]. apply both3_step3, each_rel; [|exact Hrel]. intros; apply power_one_rel; assumption.
     + destruct (members w_loc dir n); [|exact Hskip]. apply both3_step3, each_rel; [|exact Hrel]. intros; apply power_one_rel; assumption.
   - destruct (find_light dir n) as [w|]; [|exact Hskip].
     destruct (w_kind w); try exact Hskip.
-    rewrite Hregs. apply both3_step3, request_then_rel; [exact Hrel|left; reflexivity].
+    rewrite Hregs. apply both3_step3, request_then_rel; [exact Hrel|reflexivity|discriminate].
   - assert (Hab : forall r, step3 h (st1, Abort r, []) (st2, Abort r, [])) by (intros r; unfold step3; auto).
     destruct (find_light dir n) as [w|].
     + destruct (w_kind w) as [|z|[[hh wd]|]].
       * destruct (negb (rect_ok _ _ _ _)); [apply Hab|]. destruct (sh_matrix_checked sh); [exact Hskip|apply Hab].
       * destruct (negb (rect_ok _ _ _ _)); [apply Hab|]. destruct (sh_matrix_checked sh); [exact Hskip|apply Hab].
       * destruct (negb (rect_ok _ _ _ _)); [apply Hab|].
-        rewrite Hregs. apply both3_step3, request_then_rel; [exact Hrel|left; reflexivity].
-      * apply Hab.
+        rewrite Hregs. apply both3_step3, request_then_rel; [exact Hrel|reflexivity|discriminate].
+      * destruct (sh_size_guarded sh); [|apply Hab]. destruct (negb (rect_ok _ _ _ _)); [apply Hab|exact Hskip].
     + destruct (negb (rect_ok _ _ _ _)); [apply Hab|exact Hskip].
   - destruct (find_light dir n) as [w|]; [|exact Hskip].
     destruct (w_kind w); try exact Hskip.
-    pose proof (send_rel st1 st2 (w_dev w) KGetColor [] Hr (or_introl eq_refl)) as H.
+    pose proof (send_rel st1 st2 (w_dev w) KGetColor [] Hr eq_refl ltac:(discriminate)) as H.
     pose proof (send_spec st2 (w_dev w) KGetColor []) as H2.
     destruct (send sh st1 (w_dev w) KGetColor []) as [[st1' s1] r1].
     destruct (send sh st2 (w_dev w) KGetColor []) as [[st2' s2] r2].
     destruct H as (Hr' & Hnr & Hans & Hrec). destruct (Hrec h Hh) as [He Hh'].
     destruct H2 as (_ & _ & _ & _ & _ & _ & _ & _ & Hs2 & Hall2).
     destruct (Hall2 (Hh2 (w_dev w) KGetColor)) as [-> _]. destruct Hs2 as [Hs2 _].
-    pose proof Hr' as (Hregs' & Hcol' & Hlan' & Hh2' & Hdirty').
+    pose proof Hr' as (Hregs' & Hcol' & Hh2' & Hdirty').
     destruct s1.
     + destruct (Hans eq_refl) as [Ht Hc].
       destruct (tainted st1 (w_dev w)) eqn:Hta; destruct (tainted st2 (w_dev w)); unfold step3; splits; auto;
@@ -663,6 +688,7 @@ Proof.
     destruct (w_kind w); try exact Hskip. apply request_then_marked; exact Hm.
   - destruct (find_light dir n) as [w|].
     + destruct (w_kind w) as [|z|[[h wd]|]]; try exact Hskip;
+        try (destruct (sh_size_guarded sh); [|exact Hskip]);
         destruct (negb (rect_ok _ _ _ _)); try exact Hskip; try (apply request_then_marked; exact Hm);
         destruct (sh_matrix_checked sh); exact Hskip.
     + destruct (negb (rect_ok _ _ _ _)); exact Hskip.
@@ -704,15 +730,15 @@ Qed.
 
 (* THEOREM (non-interference): a device the plan leaves alone receives, under the plan,
    exactly what it receives in the run where every request is answered -- for every
-   directory, command list, starting registers and device colours, provided broadcasts
-   leave the host and no `get` read an unreliable value (s_dirty = false at the end). *)
+   directory, command list, starting registers and device colours, provided no `get` read an
+   unreliable value (s_dirty = false at the end). *)
 Theorem run_non_interference dir cs (p q : plan) regs colors h :
-  healthy p lan -> (forall d, healthy q d) -> healthy p h ->
+  (forall d, healthy q d) -> healthy p h ->
   let '(st1, res1, t1) := run sh dir (init_state p regs colors) cs in
   let '(st2, res2, t2) := run sh dir (init_state q regs colors) cs in
   s_dirty st1 = false -> res1 = res2 /\ received h t1 = received h t2.
 Proof.
-  intros Hlan Hq Hh. apply run_rel. split; [|exact Hh].
+  intros Hq Hh. apply run_rel. split; [|exact Hh].
   unfold rel, init_state; cbn. splits; auto.
 Qed.
 
@@ -721,7 +747,7 @@ Qed.
 Lemma idle_step dir st c :
   idle dir c = true -> addressable c = true -> step sh dir st c = (st, Continue, []).
 Proof.
-  destruct Hgood as (_ & _ & _ & Hchk & _).
+  destruct Hgood as (_ & _ & _ & Hchk & _ & Hsz).
   destruct c as [v | t dur | t on dur | n first last dur | n rows cols dur | n]; cbn [idle addressable step].
   - discriminate.
   - destruct t; try discriminate; cbn [resolve];
@@ -732,7 +758,8 @@ Proof.
       intros; try discriminate; reflexivity.
   - destruct (find_light dir n) as [w|]; [|reflexivity]. destruct (w_kind w); intros; try discriminate; reflexivity.
   - destruct (find_light dir n) as [w|].
-    + destruct (w_kind w); intros H1 H2; try discriminate; rewrite H2, Hchk; reflexivity.
+    + destruct (w_kind w) as [|z|[[h wd]|]]; intros H1 H2; try discriminate;
+        rewrite ?Hsz, H2, ?Hchk; reflexivity.
     + intros _ H2. rewrite H2. reflexivity.
   - destruct (find_light dir n) as [w|]; [|reflexivity]. destruct (w_kind w); intros; try discriminate; reflexivity.
 Qed.
@@ -757,7 +784,7 @@ Qed.
 Lemma build_light_total st nd :
   match snd (fst (build_light sh st nd)) with BRaise => False | _ => True end.
 Proof.
-  destruct Hgood as (_ & _ & _ & _ & Hg).
+  destruct Hgood as (_ & _ & _ & _ & Hg & _).
   unfold build_light. destruct (n_kind nd).
   - destruct (ask_all sh st (n_dev nd) _) as [[st1 ok] t1]. destruct (negb ok); exact I.
   - destruct (ask_all sh st (n_dev nd) _) as [[st1 ok] t1]. destruct (negb ok); [exact I|].
@@ -868,22 +895,21 @@ Qed.
 (* non-interference in the specification's words, with the commands aimed at unknown or
    wrong-type targets deleted from the reference run *)
 Theorem non_interference_current dir cs (p : plan) regs colors :
-  healthy p lan -> Forall (fun c => addressable c = true) cs ->
+  Forall (fun c => addressable c = true) cs ->
   let '(st1, res1, t1) := run current dir (init_state p regs colors) cs in
   let '(st2, res2, t2) := run current dir (init_state no_faults regs colors)
                               (filter (fun c => negb (idle dir c)) cs) in
-  s_dirty st1 = false -> res1 = res2 /\ undisturbed (healthy p) t1 t2.
+  res1 = res2 /\ (s_dirty st1 = false -> undisturbed (healthy p) t1 t2).
 Proof.
-  intros Hlan Hadd.
+  intros Hadd.
   rewrite <- (run_without_idle current current_good dir cs (init_state no_faults regs colors) Hadd).
+  pose proof (run_result_independent current current_good dir cs (init_state p regs colors) (init_state no_faults regs colors)) as Hres.
   destruct (run current dir (init_state p regs colors) cs) as [[st1 res1] t1] eqn:E1.
   destruct (run current dir (init_state no_faults regs colors) cs) as [[st2 res2] t2] eqn:E2.
-  intros Hd. split.
-  - pose proof (run_non_interference current current_good dir cs p no_faults regs colors lan Hlan no_faults_healthy Hlan) as H.
-    rewrite E1, E2 in H. apply H. exact Hd.
-  - intros h Hh.
-    pose proof (run_non_interference current current_good dir cs p no_faults regs colors h Hlan no_faults_healthy Hh) as H.
-    rewrite E1, E2 in H. apply H. exact Hd.
+  split; [exact Hres|].
+  intros Hd h Hh.
+  pose proof (run_non_interference current current_good dir cs p no_faults regs colors h no_faults_healthy Hh) as H.
+  rewrite E1, E2 in H. apply H. exact Hd.
 Qed.
 
 (* ---------- examples: the hypotheses are satisfiable, the exclusions necessary ---------- *)
@@ -981,22 +1007,29 @@ Example ex_discover_succeeds :
   = [("A", (0, 0)); ("C", (3, 1002002)); ("S", (2, 1008))].
 Proof. vm_compute. reflexivity. Qed.
 
-(* FINDING (current code): a broadcast that cannot be sent ends the script -- nothing
-   retries or catches the WorkflowException of set_color_all_lights / set_power_all_lights *)
-Example broadcast_failure_aborts :
+(* NECESSITY of retrying the broadcasts (D47): with the pinned LifxLanApi a broadcast that
+   cannot be sent ends the script; with the repaired one it is tried three times, abandoned,
+   and the next command is served *)
+Example pinned_broadcast_failure_aborts :
   let cs := [CColor TAll 0; CColor (TLight "B") 0] in
-  let o := run current ex_dir (init_state (plan_set no_faults lan KLanSetColorAll [false]) [1; 2; 3; 4] ex_colors) cs in
-  result_of o = Abort AbWorkflow /\ received 1 (trace_of o) = [].
+  let st := init_state (plan_set no_faults lan KLanSetColorAll [false; false; false]) [1; 2; 3; 4] ex_colors in
+  result_of (run pinned ex_dir st cs) = Abort AbWorkflow /\ received 1 (trace_of (run pinned ex_dir st cs)) = [] /\
+  result_of (run repaired ex_dir st cs) = Continue /\
+  trace_of (run repaired ex_dir st cs) = [mkreq lan KLanSetColorAll [1; 2; 3; 4; 0] [false; false; false];
+                                          mkreq 1 KSetColor [1; 2; 3; 4; 0] [true]].
 Proof. vm_compute. auto. Qed.
 
-(* FINDING (current code): a matrix light that stayed silent to the size query during
-   discovery is entered with height = width = None; the first row/column command aimed at
-   it ends the script *)
-Example silent_matrix_aborts :
-  let d := discover current [] (init_state (silent 3 KGetChain) [] ex_colors) ex_net in
-  let o := run current (directory_of d) (init_state no_faults [1; 2; 3; 4] ex_colors)
-               [CMatrix "C" (Some (1, None)) None 0; CColor (TLight "A") 0] in
-  discover_end_of d = Reported true /\ result_of o = Abort AbSize /\ received 0 (trace_of o) = [].
+(* NECESSITY of the size guard (D48): a matrix light that stayed silent to the size query
+   during discovery is entered with height = width = None; with the pinned handlers the
+   first row/column command aimed at it ends the script, with the repaired ones it is skipped *)
+Example pinned_silent_matrix_aborts :
+  let cs := [CMatrix "C" (Some (1, None)) None 0; CColor (TLight "A") 0] in
+  let d := discover repaired [] (init_state (silent 3 KGetChain) [] ex_colors) ex_net in
+  let st := init_state no_faults [1; 2; 3; 4] ex_colors in
+  discover_end_of d = Reported true /\
+  result_of (run pinned (directory_of d) st cs) = Abort AbSize /\
+  result_of (run repaired (directory_of d) st cs) = Continue /\
+  received 0 (trace_of (run repaired (directory_of d) st cs)) = [(KSetColor, [1; 2; 3; 4; 0])].
 Proof. vm_compute. auto. Qed.
 
 (* ---------- the existential forms quoted in Props/C12.v ---------- *)
@@ -1047,20 +1080,23 @@ Proof.
   exists [], (init_state (silent 2 KGetZones) [] ex_colors), ex_net. split; reflexivity.
 Qed.
 
-Theorem broadcast_failure_aborts_ex :
-  exists dir st cs, ~ healthy (s_plan st) lan /\ result_of (run current dir st cs) = Abort AbWorkflow.
+Theorem broadcast_failure_refuted :
+  exists dir st cs, result_of (run pinned dir st cs) = Abort AbWorkflow /\
+                    result_of (run repaired dir st cs) = Continue.
 Proof.
-  exists ex_dir, (init_state (plan_set no_faults lan KLanSetColorAll [false]) [1; 2; 3; 4] ex_colors),
+  exists ex_dir, (init_state (plan_set no_faults lan KLanSetColorAll [false; false; false]) [1; 2; 3; 4] ex_colors),
          [CColor TAll 0; CColor (TLight "B") 0].
-  split; [|reflexivity]. intros H. specialize (H KLanSetColorAll). cbn in H. inversion H. discriminate.
+  split; reflexivity.
 Qed.
 
-Theorem silent_matrix_aborts_ex :
+Theorem silent_matrix_refuted :
   exists net p cs,
-    let d := discover current [] (init_state p [] (fun _ => [])) net in
+    let d := discover repaired [] (init_state p [] (fun _ => [])) net in
+    let st := init_state no_faults [0; 0; 0; 0] (fun _ => [0; 0; 0; 0]) in
     discover_end_of d = Reported true /\
-    result_of (run current (directory_of d) (init_state no_faults [0; 0; 0; 0] (fun _ => [0; 0; 0; 0])) cs) = Abort AbSize.
+    result_of (run pinned (directory_of d) st cs) = Abort AbSize /\
+    result_of (run repaired (directory_of d) st cs) = Continue.
 Proof.
   exists ex_net, (silent 3 KGetChain), [CMatrix "C" (Some (1, None)) None 0; CColor (TLight "A") 0].
-  split; reflexivity.
+  cbv zeta. splits; reflexivity.
 Qed.
